@@ -354,6 +354,47 @@ func (x *Exec) copyOp(st *State, d, s Value, resT types.Type) Value {
 func (x *Exec) intrinsic(fr *frame, st *State, q string, callee *ssa.Function, args []Value, resT types.Type, pos token.Pos) (Value, bool) {
 	c := x.C
 	switch q {
+	case "sort.Search":
+		// Assumed contract of sort.Search(n, f) (the postcondition of binary search, valid for every
+		// deterministic side-effect free predicate): the result r satisfies 0 <= r <= n,
+		// r > 0 ==> !f(r-1) and r < n ==> f(r). The closure is evaluated symbolically: once at an
+		// arbitrary index in [0,n) for its own safety obligations, then at r-1 and r for the facts.
+		if len(args) == 2 && args[1].F != nil && x.specMode == 0 && !x.Opt.Paths {
+			n := x.toIdx(args[0])
+			callAt := func(idx *Term, cond *Term, np bool) *Term {
+				sub := st.snapshot()
+				sub.PC = c.And(st.PC, cond)
+				saveNP := x.Opt.NoPanic
+				if !np {
+					x.Opt.NoPanic = false
+				}
+				a := []Value{{T: types.Typ[types.Int], L: []*Term{idx}}}
+				if args[1].F.Recv != nil {
+					a = append([]Value{*args[1].F.Recv}, a...)
+				}
+				v := x.inline(sub, args[1].F.Fn, a, args[1].F.Bindings)
+				x.Opt.NoPanic = saveNP
+				if !np {
+					// facts established while evaluating the predicate (callee contracts) hold
+					// whenever this evaluation is meaningful
+					x.assume(st, c.Implies(cond, sub.PC))
+				}
+				return v.L[0]
+			}
+			h := c.Fresh("sort.Search$h", IdxSort)
+			callAt(h, c.And(c.BVCmp("bvsle", c.BVI(0, 64), h), c.BVCmp("bvslt", h, n)), true)
+			r := c.Fresh("sort.Search$r", IdxSort)
+			x.assume(st, c.And(c.BVCmp("bvsle", c.BVI(0, 64), r), c.BVCmp("bvsle", r, n)))
+			rm1 := c.BVBin("bvsub", r, c.BVI(1, 64))
+			gt0 := c.BVCmp("bvslt", c.BVI(0, 64), r)
+			ltn := c.BVCmp("bvslt", r, n)
+			f1 := callAt(rm1, gt0, false)
+			f2 := callAt(r, ltn, false)
+			x.assume(st, c.Implies(gt0, c.Not(f1)))
+			x.assume(st, c.Implies(ltn, f2))
+			x.Notes.Assumed["sort.Search: assumed contract (binary-search postcondition): 0 <= r <= n, r > 0 ==> !f(r-1), r < n ==> f(r); the predicate closure is evaluated symbolically and assumed deterministic and side-effect free"] = true
+			return Value{T: types.Typ[types.Int], L: []*Term{r}}, true
+		}
 	case verifrtPath + ".Assume":
 		x.assume(st, args[0].L[0])
 		return Value{}, true
